@@ -137,7 +137,10 @@ def verify_path_task(task: Tuple[str, List[int]]) -> Dict[str, Any]:
         v.cross = []
         qu = _W.get('queue')
         v.pending_sink = (lambda p: qu.put((q, list(p)))) if qu is not None else None
+        v.comp_matched = set()
         r, pend = v.verify_one_path(fi, ct, decisions)
+        out['comp_matched'] = sorted(v.comp_matched)
+        out['comp_names'] = sorted((ct.extra.get('comp_clauses') or {}).keys())
         out['pending'] = pend
         out['paths'] = 1
         out['covers'] = r.covers
@@ -193,6 +196,9 @@ def merge_into(acc: Dict[str, Any], r: Dict[str, Any]) -> None:
         acc['cross'][k] += r['cross'][k]
     acc['cross']['mismatch'] += r['cross']['mismatch']
     acc['live'] = acc.get('live', False) or r.get('live', False)
+    acc['comp_matched'] = sorted(set(acc.get('comp_matched', [])) | set(r.get('comp_matched', [])))
+    if r.get('comp_names'):
+        acc['comp_names'] = r['comp_names']
 
 
 def run_all(targets: List[str], jobs: int) -> List[Dict[str, Any]]:
@@ -256,6 +262,9 @@ def finish(a: Dict[str, Any]) -> Dict[str, Any]:
     # reachability guard behind the contracts used on the way: a function whose normal return is unreachable under its
     # own precondition and its callees' contracts has (some) contradictory contract - everything after would be proved
     # vacuously.  (never_returns = True for the rare function that only raises.)
+    # a comprehension contract that matched no comprehension on any path was silently not applied
+    a['comp_unmatched'] = [] if (a.get('assumed') or a['unsupported'] or a['errors']) else \
+        [n for n in a.get('comp_names', []) if n not in a.get('comp_matched', [])]
     a['no_return'] = (not a.get('assumed')) and a.get('live') and not a.get('covers', {}).get('return') \
         and not a['unsupported'] and not a['errors'] and not a['failures'] and not a.get('never_returns')
     return a
@@ -448,6 +457,9 @@ def report(pid: str, a, results: List[Dict[str, Any]], seed: int, wall: float, c
             errors.append(f"{r['function']}: {e}")
         if r.get('vacuous'):
             errors.append(f"{r['function']}: vacuous precondition (no feasible path)")
+        for cn in r.get('comp_unmatched') or []:
+            errors.append(f"{r['function']}: comprehension contract comp_{cn} matched no comprehension of the body "
+                          f"(renamed / rewritten? the clauses were not applied)")
         if r.get('no_return'):
             errors.append(f"{r['function']}: no feasible path returns normally (contradictory contracts on the way?)")
         cross_checked += r['cross']['checked']
